@@ -304,3 +304,5 @@ func fieldIndexByName(t interface{ String() string }, name string) int {
 	}
 	panic("no field " + name + " in " + tt.String())
 }
+
+func typesPointer(t types.Type) types.Type { return types.NewPointer(t) }
